@@ -28,6 +28,8 @@ import os
 import time
 from collections import Counter
 
+from mc import procstate
+
 
 _ADDR = re.compile(r"0x[0-9a-fA-F]{6,}")
 
@@ -46,6 +48,11 @@ class Violation(Exception):
 
 class HarnessError(Exception):
     pass
+
+
+class _HiddenState(Exception):
+    """from-scratch executions agree with each other but not with the snapshot-based exploration: the code under test
+    keeps state outside the objects the explorer snapshots; the task is explored again without snapshots"""
 
 
 class Ctx:
@@ -113,6 +120,7 @@ def run_path(system, cfg, events, seed, stop_on_violation=True):
 
     Returns (observations, violation-or-None)."""
     ctx = Ctx(seed, collect=False)
+    procstate.reset()
     state = system.init(cfg)
     obs = []
     for pos, ev in enumerate(events):
@@ -177,7 +185,22 @@ def dev_split(task):
 
 
 def explore(system, task, seed, prop, max_violations=3, deadline=None):
-    """Run one task; returns dict(stats, violations, samples)."""
+    """Run one task; returns dict(stats, violations, samples).
+
+    Normally states are snapshots (deepcopy).  If a from-scratch execution disagrees with the snapshot-based path while two
+    from-scratch executions agree with each other, the code under test keeps state outside the snapshotted objects; the
+    whole task is then explored again with every state rebuilt from scratch (no snapshots, no transposition table), so
+    that every verdict is a function of (seed, configuration, events) and replays in a fresh process."""
+    try:
+        return _explore(system, task, seed, prop, max_violations, deadline, False)
+    except _HiddenState as h:
+        res = _explore(system, task, seed, prop, max_violations, deadline, True)
+        res["stats"]["tasks_reexplored_without_snapshots"] = 1
+        res["stats"]["hidden_state_first_seen: " + str(h)[:160]] = 1
+        return res
+
+
+def _explore(system, task, seed, prop, max_violations, deadline, fresh_mode):
     cfg = task["cfg"]
     mode = task.get("mode", "dfs")
     prefix = list(task.get("prefix", ()))
@@ -223,6 +246,8 @@ def explore(system, task, seed, prop, max_violations=3, deadline=None):
         for _ in range(2):
             _, v2 = run_path(system, cfg, events, seed)
             msgs.append(None if v2 is None else (v2.sub, v2.msg))
+        if not fresh_mode and msgs[0] == msgs[1] and msgs[0] != (v.sub, v.msg):
+            raise _HiddenState("violation %r on events=%r, from scratch: %r" % (v.sub, events, msgs[0]))
         if msgs[0] != (v.sub, v.msg) or msgs[1] != (v.sub, v.msg):
             raise HarnessError(
                 "HARNESS-NONDET: violation %r on %s cfg=%r events=%r did not reproduce from scratch: %r"
@@ -247,6 +272,10 @@ def explore(system, task, seed, prop, max_violations=3, deadline=None):
             )
         if validate_every and n % validate_every == 1:
             obs2, v2 = run_path(system, cfg, path_ev, seed)
+            if not fresh_mode and (v2 is not None or not _same(obs2, path_obs)):
+                obs3, v3 = run_path(system, cfg, path_ev, seed)
+                if _same(obs2, obs3) and (None if v2 is None else (v2.sub, v2.msg)) == (None if v3 is None else (v3.sub, v3.msg)):
+                    raise _HiddenState("events=%r" % (path_ev,))
             if v2 is not None or not _same(obs2, path_obs):
                 raise HarnessError(
                     "HARNESS-NONDET: snapshot exploration and fresh execution differ on %s cfg=%r events=%r"
@@ -265,6 +294,19 @@ def explore(system, task, seed, prop, max_violations=3, deadline=None):
         st["transitions"] += 1
         return obs, True
 
+    def rebuild(events):
+        """state after ``events`` from scratch (fresh mode): nothing survives from sibling paths"""
+        c2 = Ctx(seed, collect=False)
+        procstate.reset()
+        s2 = system.init(cfg)
+        for p2, e2 in enumerate(events):
+            c2.terminal = False
+            try:
+                system.step(cfg, s2, e2, p2, c2)
+            except Violation as v:
+                raise HarnessError("HARNESS-NONDET: prefix %r raised %r when rebuilt from scratch" % (events, v.msg))
+        return s2
+
     def rec(state, pos, budget, nmarks):
         if pos >= total_len or ctx.terminal:
             leaf(nmarks)
@@ -278,14 +320,17 @@ def explore(system, task, seed, prop, max_violations=3, deadline=None):
             return
         last = len(evs) - 1
         for j, (ev, cost) in enumerate(evs):
-            child = state if j == last else copy.deepcopy(state)
+            if fresh_mode:
+                child = rebuild(path_ev)
+            else:
+                child = state if j == last else copy.deepcopy(state)
             obs, ok = do_step(child, ev, pos)
             if not ok:
                 continue
             m = ctx.marks
             term = ctx.terminal
             if not term:
-                k = system.key(cfg, child, pos + 1)
+                k = None if fresh_mode else system.key(cfg, child, pos + 1)
                 if k is not None:
                     k = (k, budget - cost)
                     rem = total_len - pos - 1
@@ -308,6 +353,7 @@ def explore(system, task, seed, prop, max_violations=3, deadline=None):
             path_ev.pop()
             path_obs.pop()
 
+    procstate.reset()
     state = system.init(cfg)
     st["states"] += 1
     nm = 0
